@@ -15,9 +15,11 @@ import (
 	"reduction.dev/reduction-protocol/handlerpb"
 	"reduction.dev/reduction/batching"
 	"reduction.dev/reduction/connectors/embedded"
+	"reduction.dev/reduction/proto"
 	"reduction.dev/reduction/proto/jobpb"
 	"reduction.dev/reduction/proto/workerpb"
 	"reduction.dev/reduction/workers/operator"
+	"reduction.dev/reduction/workers/sourcerunner"
 	"reduction.dev/reduction/workers/wmark"
 	"reduction.dev/reduction/workers/workerstest"
 	"verif/harness/lib"
@@ -74,7 +76,28 @@ func (h *c11Handler) take() string {
 var c11Seq atomic.Int64
 var c11Quiet sync.Once
 
+// c11Sink is the operator a VerifSender broadcasts to: it reports what arrives, in order.
+type c11Sink struct {
+	proto.UnimplementedOperator
+	got chan string
+}
+
+func (o *c11Sink) HandleEventBatch(ctx context.Context, batch []*workerpb.Event) error {
+	for _, e := range batch {
+		switch te := e.Event.(type) {
+		case *workerpb.Event_KeyedEvent:
+			o.got <- "k"
+		case *workerpb.Event_Watermark:
+			o.got <- nsOfTime(te.Watermark.Timestamp.AsTime())
+		}
+	}
+	return nil
+}
+func (o *c11Sink) ID() string { return "sink" }
+
 type c11Env struct {
+	sender  *sourcerunner.VerifSender
+	sink    *c11Sink
 	w       *wmark.Watermarker
 	op      *operator.Operator
 	h       *c11Handler
@@ -139,7 +162,30 @@ func (e *c11Env) send(sender string, ev *workerpb.Event) string {
 	return "c=" + nsOfTime(e.op.VerifWatermark()) + " " + e.h.take()
 }
 
+func (e *c11Env) runner() {
+	if e.sender == nil {
+		e.sink = &c11Sink{got: make(chan string, 64)}
+		e.sender = sourcerunner.VerifNewSender(4, []proto.Operator{e.sink})
+	}
+}
+
+func (e *c11Env) await(want int) ([]string, bool) {
+	var got []string
+	for len(got) < want {
+		select {
+		case s := <-e.sink.got:
+			got = append(got, s)
+		case <-time.After(10 * time.Second):
+			return got, false
+		}
+	}
+	return got, true
+}
+
 func (e *c11Env) close() {
+	if e.sender != nil {
+		e.sender.Close()
+	}
 	if e.op == nil {
 		return
 	}
@@ -160,6 +206,30 @@ func (e *c11Env) step(op string) string {
 		return "ok"
 	case "tick":
 		return nsOfTime(e.w.CurrentWatermark())
+	case "revs":
+		// a keyed-event placeholder resolved with this batch, sent through the real sendOperatorEvent
+		e.runner()
+		batch := make([]*handlerpb.KeyedEvent, 0, len(f)-1)
+		for i, s := range f[1:] {
+			batch = append(batch, &handlerpb.KeyedEvent{Key: []byte{byte(i)}, Timestamp: timestamppb.New(timeOfNs(s))})
+		}
+		if err := e.sender.SendKeyed(batch); err != nil {
+			return "error"
+		}
+		if _, ok := e.await(len(batch)); !ok {
+			return "timeout"
+		}
+		return "ok"
+	case "rtick":
+		e.runner()
+		if err := e.sender.SendWatermark(); err != nil {
+			return "error"
+		}
+		got, ok := e.await(1)
+		if !ok {
+			return "timeout"
+		}
+		return got[0]
 	case "keyed":
 		return e.send("sr"+f[1], &workerpb.Event{Event: &workerpb.Event_KeyedEvent{KeyedEvent: &handlerpb.KeyedEvent{
 			Key: lib.UnHex(f[2]), Value: []byte(f[3]), Timestamp: timestamppb.New(time.Unix(0, 0))}}})
@@ -192,13 +262,14 @@ func propC11() *lib.Prop {
 		Corr: "Model/Watermark.lean (Watermarker, runner stamping, upstream map, composite) + Model/Timers.lean (Registry, Op) ↔ wmark.Watermarker, operator.TimerRegistry and the real operator.Operator event loop (HandleEvent → handleWatermark/handleUserEvent/processEventBatch) with a logging handler",
 		Rule: "cases = (a) event-timestamp sequences (ordered or not, with ties, zero-time and large values) fed to the real Watermarker with CurrentWatermark sampled at arbitrary points; " +
 			"(b) keyed events (whose handler response registers timers) and watermark messages from 1-4 runners in scripted interleavings sent to a real Operator (one key group, in-memory DKV, batch sizes 1-4); compared: " +
+			"(a') the same sequences sent through the real SourceRunner.sendOperatorEvent (placeholders resolved with event batches, watermark placeholders stamped when sent) to a recording operator; " +
 			"every ProcessEventBatchRequest (Watermark field, keyed and TimerExpired events in order) and the registry's composite after each message; non-trivial = at least 2 runners whose latest watermarks differ at some point and a timer fired, or an unordered timestamp sequence with at least one sample; " +
 			"fixed cases enumerate all interleavings of 2-3 runners x up to 2-3 messages",
 		NumCases: func(tier string) int {
 			if tier == "thorough" {
-				return 3000
+				return 6000
 			}
-			return 300
+			return 600
 		},
 		Fixed: func(tier string) []lib.Case {
 			var cs []lib.Case
@@ -229,16 +300,22 @@ func propC11() *lib.Prop {
 				// (a) watermarker
 				lat := lib.Pick(r, []int64{0, 0, 1, 5, 1000, 1_000_000_000, 3_600_000_000_000})
 				c := lib.Case{Header: fmt.Sprintf("M C11 %d 1 1 1", lat), Tags: []string{"watermarker"}}
+				// half of the cases go through the real runner's send path (its watermarker has no allowed lateness)
+				evs, tick := "evs", "tick"
+				if r.Bool() {
+					evs, tick = "revs", "rtick"
+					c.Tags = append(c.Tags, "runner")
+				}
 				scale := lib.Pick(r, []int64{1, 7, 1_000_000, 1_700_000_000_000_000_000 / 50})
 				n := r.Range(5, 60)
 				cur := int64(r.Intn(20))
 				for j := 0; j < n; j++ {
 					if r.Chance(1, 3) {
-						c.Ops = append(c.Ops, "tick")
+						c.Ops = append(c.Ops, tick)
 						continue
 					}
 					k := r.Range(1, 4)
-					op := "evs"
+					op := evs
 					for ; k > 0; k-- {
 						switch r.Intn(5) {
 						case 0:
@@ -254,7 +331,7 @@ func propC11() *lib.Prop {
 					}
 					c.Ops = append(c.Ops, op)
 				}
-				c.Ops = append(c.Ops, "tick")
+				c.Ops = append(c.Ops, tick)
 				return c
 			}
 			// (b) operator
